@@ -1,4 +1,6 @@
-/// strictly increasing
+/// strictly increasing (opaque: the two-variable quantifier is only revealed inside the lemmas
+/// that need it; everywhere else sortedness is carried as an atom)
+#[verifier::opaque]
 pub open spec fn tabs_sorted(s: Seq<usize>) -> bool {
     forall|i: int, j: int| 0 <= i < j < s.len() ==> s[i] < s[j]
 }
@@ -43,5 +45,59 @@ pub proof fn lemma_tabs_below_bounds(s: Seq<usize>, pos: int)
 {
     if s.len() > 0 && s[0] < pos {
         lemma_tabs_below_bounds(s.subrange(1, s.len() as int), pos);
+    }
+}
+
+/// the first `tabs_below(s, pos)` stops are exactly the ones below `pos`
+pub proof fn lemma_tabs_below_prefix(s: Seq<usize>, pos: int)
+    requires
+        tabs_sorted(s),
+    ensures
+        0 <= tabs_below(s, pos) <= s.len(),
+        forall|i: int| 0 <= i < tabs_below(s, pos) ==> (#[trigger] s[i]) < pos,
+        forall|i: int| tabs_below(s, pos) <= i < s.len() ==> (#[trigger] s[i]) >= pos,
+    decreases s.len(),
+{
+    reveal(tabs_sorted);
+    if s.len() > 0 {
+        let t = s.subrange(1, s.len() as int);
+        assert(tabs_sorted(t)) by {
+            assert forall|i: int, j: int| 0 <= i < j < t.len() implies t[i] < t[j] by {
+                assert(t[i] == s[i + 1]);
+                assert(t[j] == s[j + 1]);
+            }
+        }
+        if s[0] < pos {
+            lemma_tabs_below_prefix(t, pos);
+            assert forall|i: int| 0 <= i < tabs_below(s, pos) implies (#[trigger] s[i]) < pos by {
+                if i > 0 { assert(s[i] == t[i - 1]); }
+            }
+            assert forall|i: int| tabs_below(s, pos) <= i < s.len() implies (#[trigger] s[i]) >= pos by {
+                assert(s[i] == t[i - 1]);
+            }
+        } else {
+            assert forall|i: int| 0 <= i < s.len() implies (#[trigger] s[i]) >= pos by {
+                if i > 0 { assert(s[0] < s[i]); }
+            }
+        }
+    }
+}
+
+/// [C18] what `mult8_in` contains
+pub proof fn lemma_mult8_in(start: int, end: int)
+    requires
+        0 <= start <= end <= crate::MEM_MAX,
+    ensures
+        tabs_sorted(mult8_in(start, end)),
+        forall|i: int| 0 <= i < mult8_in(start, end).len() ==> start <= (#[trigger] mult8_in(start, end)[i]) < end && mult8_in(start, end)[i] >= 8 && mult8_in(start, end)[i] % 8 == 0,
+{
+    reveal(tabs_sorted);
+    let first = if start <= 8 { 8 } else { ((start + 7) / 8) * 8 };
+    let m = mult8_in(start, end);
+    assert forall|i: int| 0 <= i < m.len() implies start <= (#[trigger] m[i]) < end && m[i] >= 8 && m[i] % 8 == 0 by {
+        assert(first + 8 * i < end) by (nonlinear_arith)
+            requires 0 <= i < ((end - first + 7) / 8), end > first;
+        assert((first + 8 * i) % 8 == 0) by (nonlinear_arith)
+            requires first % 8 == 0, i >= 0;
     }
 }
